@@ -127,11 +127,10 @@ def _div_rule(chk, tu):
 
 def _wrap_rule(chk, tu):
     rule = "C14-WRAP"
-    chk.rule(rule, "no signed 64-bit + - * unary- in cfun_it_* operator bodies (wrap must be computed unsigned)")
+    chk.rule(rule, "no signed 64-bit + - * unary- anywhere in inttypes.c (operator bodies and their helpers): wrap must be computed unsigned")
     used = set()
     for fn in tu.funcs.values():
-        if not fn.name.startswith("cfun_it_"):
-            continue
+        # every function of the unit: operator bodies and the helpers they are factored into
         chk.analysed(fn)
         for n in fn.nodes:
             signed64 = n.t in ("int64_t", "long", "long long")
@@ -391,6 +390,63 @@ def _castrange_rule(chk, tu):
     chk.floor(rule, 4, n)
 
 
+def _lossy_rule(chk, tu):
+    """(double) of a 64-bit integer rounds once the magnitude passes 2^53.  That is exact (to-number) only if the integer
+    itself is confined to +-2^53, and harmless in a comparison only if the double it is compared with is confined to
+    +-2^53 (then rounding cannot carry the integer across it).  Anything wider makes distinct values compare equal."""
+    rule = "C14-LOSSY"
+    chk.rule(rule, "a 64-bit integer is converted to double only where it, or the double it is compared with, is confined to +-2^53")
+    LIM = 2.0 ** 53
+    n = 0
+    for fn in tu.funcs.values():
+        sites = [x for x in fn.nodes if x.k == "cast" and (x.t or "") == "double" and x.kids
+                 and (x.kids[0].t or "") in ("int64_t", "uint64_t", "long", "unsigned long") and x.kids[0].v is None]
+        if not sites:
+            continue
+        chk.analysed(fn)
+        IN, T = flow.condition_facts(fn)
+        seen = set()
+        for x, S in flow.states_at(fn, IN, T):
+            if x not in sites or x.id in seen:
+                continue
+            seen.add(x.id)
+            n += 1
+            chk.instance(rule)
+            src = strip_casts(x.kids[0])
+            unsigned_src = (src.t or "").startswith("u")
+            bad = False
+            for ps in S:
+                bounds = {}
+                for (op, l, r, _, ln, rn) in ps:
+                    if rn is None:
+                        continue
+                    for var, other, o in ((l, rn, op), (r, ln, {"<": ">", ">": "<", "<=": ">=", ">=": "<=", "==": "==", "!=": "!="}[op])):
+                        b = _fval(other)
+                        if b is None:
+                            continue
+                        d = bounds.setdefault(var, [False, False])
+                        if (o == "<" and b <= LIM) or (o == "<=" and b <= LIM):
+                            d[0] = True
+                        if (o == ">" and b >= -LIM) or (o == ">=" and b >= -LIM):
+                            d[1] = True
+                okay = False
+                for var, (up, low) in bounds.items():
+                    if var == src.text() and up and (low or unsigned_src):
+                        okay = True
+                    elif var != src.text() and up and low:
+                        okay = True
+                if not okay:
+                    bad = True
+            if bad:
+                chk.violation(rule, tu.name, fn.name, x.text().replace(" ", ""), x.loc,
+                              "`%s` is reached on a path where neither the integer nor the double it meets is confined to +-2^53: "
+                              "above that the conversion rounds, so an integer and a neighbouring double compare equal (or the number "
+                              "returned is not the integer's value)" % x.text())
+            else:
+                chk.ok(rule, "%s: %s only within the exactly representable range" % (fn.name, x.text()))
+    chk.floor(rule, 3, n)
+
+
 def run(chk):
     prog = Program.load("default", units=["inttypes.c"])
     tu = prog.tus["inttypes.c"]
@@ -400,6 +456,7 @@ def run(chk):
     _methods_rule(chk, prog, tu)
     _accum_rule(chk)
     _castrange_rule(chk, tu)
-    chk.floor("C14-DIV", 14)
+    _lossy_rule(chk, tu)
+    chk.floor("C14-DIV", 8)
     chk.floor("C14-WRAP", 10)
     chk.floor("C14-METHODS", 40)
